@@ -214,3 +214,191 @@ Definition is_valid_port (v : pyval) : res bool := is_int_in_range v 0 65535.
 Definition is_valid_icmp_type (v : pyval) : res bool := is_int_in_range v 0 255.
 Definition is_valid_icmp_code (v : pyval) : res bool :=
   match v with VNone => Ok true | _ => is_int_in_range v 0 255 end.
+
+(* ------------------------------------------------------------------ (4) models of the former oracles *)
+
+(* ---------- socket.inet_aton (glibc 2.36 inet_aton, the variant that ignores what follows
+   the first ASCII white space) and netaddr.valid_ipv4(s, flags=INET_ATON) ---------- *)
+Definition is_c_space (c : N) : bool := ((9 <=? c) && (c <=? 13)) || (c =? 32).
+(* the text up to the first C white-space character *)
+Fixpoint before_space (s : str) : str :=
+  match s with
+  | [] => []
+  | c :: t => if is_c_space c then [] else c :: before_space t
+  end.
+
+Definition is_octal (c : N) : bool := (48 <=? c) && (c <=? 55).
+Definition hex_digit_val (c : N) : N := if c <=? 57 then c - 48 else if c <=? 70 then c - 55 else c - 87.
+Fixpoint radix_val (r : N) (dv : N -> N) (s : str) (acc : N) : N :=
+  match s with [] => acc | c :: t => radix_val r dv t (acc * r + dv c) end.
+Definition hexval (s : str) : N := radix_val 16 hex_digit_val s 0.
+Definition octval (s : str) : N := radix_val 8 (fun c => c - 48) s 0.
+
+(* strtoul(p, &end, 0) consuming ALL of p: decimal (no leading 0), 0 + octal digits,
+   0x/0X + at least one hex digit *)
+Definition c_octal (t : str) : option N := if forallb is_octal t then Some (octval t) else None.
+Definition c_number (p : str) : option N :=
+  match p with
+  | [] => None
+  | c :: t =>
+      if c =? 48 then
+        match t with
+        | x :: h =>
+            if ((x =? 120) || (x =? 88)) && negb (beq h [])
+            then (if forallb is_hex h then Some (hexval h) else None)
+            else c_octal t
+        | [] => c_octal t
+        end
+      else if ascii_digit c && forallb ascii_digit t then Some (dval p 0) else None
+  end.
+
+(* largest value of the last part when k parts precede it *)
+Definition aton_limit (k : nat) : N :=
+  match k with 0%nat => 4294967295 | 1%nat => 16777215 | 2%nat => 65535 | _ => 255 end.
+Fixpoint aton_parts (ps : list str) (k : nat) : bool :=
+  match ps with
+  | [] => false
+  | [p] => match c_number p with Some v => (v <=? aton_limit k) && (k <=? 3)%nat | None => false end
+  | p :: t => match c_number p with
+              | Some v => (v <=? 255) && (k <=? 2)%nat && aton_parts t (S k)
+              | None => false
+              end
+  end.
+Definition aton_ok (s : str) : bool := aton_parts (split_char 46 (before_space s)) 0.
+
+Definition inet_aton (s : str) : ares :=
+  if negb (cstr_ok s) then ARaise AValueError
+  else if aton_ok s then AOk true else ARaise AOSError.
+
+(* netaddr.strategy.ipv4.valid_str(addr, flags=INET_ATON): a ':' is refused first *)
+Definition netaddr_valid_ipv4_aton (s : str) : ares :=
+  if existsb (N.eqb 58) s then AOk false
+  else match inet_aton s with
+       | ARaise AOSError => AOk false
+       | r => r
+       end.
+
+(* ---------- netaddr.IPNetwork(text[, version=6]) for a str argument (netaddr 1.3.0) ---------- *)
+Inductive pres := PVal (v : N) | PRaise (e : aexn).
+
+Definition octet_val (f : str) : N := dval f 0.
+Definition pton4_value (s : str) : option N :=
+  match split_char 46 s with
+  | [a; b; c; d] =>
+      if octetb a && octetb b && octetb c && octetb d
+      then Some (((octet_val a * 256 + octet_val b) * 256 + octet_val c) * 256 + octet_val d)
+      else None
+  | _ => None
+  end.
+
+(* the 16-bit units of an IPv6 text, in parallel to units / units_h / tail_units / pton6_fields *)
+Fixpoint units_v (fs : list str) : option (list N) :=
+  match fs with
+  | [] => Some []
+  | [f] => if h16b f then Some [hexval f]
+           else match pton4_value f with Some v => Some [v / 65536; v mod 65536] | None => None end
+  | f :: t => if h16b f then option_map (cons (hexval f)) (units_v t) else None
+  end.
+Fixpoint units_hv (fs : list str) : option (list N) :=
+  match fs with
+  | [] => Some []
+  | f :: t => if h16b f then option_map (cons (hexval f)) (units_hv t) else None
+  end.
+Definition tail_units_v (r : list str) : option (list N) :=
+  match r with
+  | [] => None
+  | [[]] => Some []
+  | _ => units_v r
+  end.
+Definition pton6_fields_v (s' : str) : option (list N) :=
+  let fs := split_char 58 s' in
+  match cut_empty fs with
+  | None => match units_v fs with
+            | Some us => if Nat.eqb (length us) 8 then Some us else None
+            | None => None
+            end
+  | Some (l0, r0) =>
+      match units_hv l0, tail_units_v r0 with
+      | Some a, Some b =>
+          if (length a + length b <=? 7)%nat
+          then Some (a ++ repeat 0 (8 - length a - length b) ++ b) else None
+      | _, _ => None
+      end
+  end.
+Definition pton6_units (s : str) : option (list N) :=
+  match s with
+  | [] => None
+  | c :: t =>
+      if c =? 58 then
+        match t with
+        | c2 :: _ => if c2 =? 58 then pton6_fields_v t else None
+        | [] => None
+        end
+      else pton6_fields_v s
+  end.
+Definition pton6_value (s : str) : option N :=
+  option_map (fun us => fold_left (fun acc u => acc * 65536 + u) us 0) (pton6_units s).
+
+(* module.str_to_int(addr, INET_PTON) *)
+Definition str_to_int (v6 : bool) (s : str) : pres :=
+  if v6 then
+    (if negb (cstr_ok s) then PRaise AValueError
+     else match pton6_value s with Some v => PVal v | None => PRaise AAddrFormatError end)
+  else
+    (if existsb (N.eqb 58) s then PRaise AAddrFormatError
+     else if existsb leading_zero_part (split_char 46 s) then PRaise AAddrFormatError
+     else if negb (cstr_ok s) then PRaise AValueError
+     else match pton4_value s with Some v => PVal v | None => PRaise AAddrFormatError end).
+
+(* IPAddress(addr, version, flags=INET_PTON): a '/' is refused with ValueError *)
+Definition ipaddress_of (v6 : bool) (s : str) : pres :=
+  if existsb (N.eqb 47) s then PRaise AValueError else str_to_int v6 s.
+
+Definition ip_width (v6 : bool) : N := if v6 then 128 else 32.
+(* IPAddress.is_netmask / is_hostmask: x & (x - 1) == 0 for x = (value ^ max) + 1, x = value + 1 *)
+Definition pow2_or_zero (x : N) : bool := N.land x (x - 1) =? 0.
+Definition is_netmask (v6 : bool) (v : N) : bool := pow2_or_zero (N.lxor v (2 ^ ip_width v6 - 1) + 1).
+Definition is_hostmask (v : N) : bool := pow2_or_zero (v + 1).
+
+(* addr.split('/', 1) when '/' in addr *)
+Fixpoint split_first (c : N) (s : str) : str * option str :=
+  match s with
+  | [] => ([], None)
+  | x :: t => if x =? c then ([], Some t)
+              else let (a, b) := split_first c t in (x :: a, b)
+  end.
+
+(* parse_ip_network(module, addr) for a str: AOk _ = a (value, prefixlen) pair is returned *)
+Definition parse_ip_network (v6 : bool) (s : str) : ares :=
+  let (val1, val2) := split_first 47 s in
+  match ipaddress_of v6 val1 with
+  | PRaise e => ARaise e
+  | PVal _ =>
+      match val2 with
+      | None => AOk true
+      | Some p =>
+          match py_int_str p with
+          | Some z => if (0 <=? z)%Z && (z <=? Z.of_N (ip_width v6))%Z then AOk true else ARaise AAddrFormatError
+          | None =>
+              match ipaddress_of v6 p with
+              | PRaise e => ARaise e
+              | PVal m => if is_netmask v6 m || is_hostmask m then AOk true else ARaise AAddrFormatError
+              end
+          end
+      end
+  end.
+
+(* IPNetwork(addr): IPv4 first, IPv6 when that raised AddrFormatError *)
+Definition ipnetwork (s : str) : ares :=
+  match parse_ip_network false s with
+  | ARaise AAddrFormatError => parse_ip_network true s
+  | r => r
+  end.
+(* IPNetwork(addr, version=6).cidr *)
+Definition ipnetwork6 (s : str) : ares := parse_ip_network true s.
+
+(* ------------------------------------------------------------------ (5) the validators without oracle arguments *)
+Definition valid_ipv4 (strict : bool) (s : str) : ares := is_valid_ipv4 strict (netaddr_valid_ipv4_aton s) s.
+Definition valid_ip (s : str) : ares := is_valid_ip (netaddr_valid_ipv4_aton s) s.
+Definition valid_cidr (s : str) : ares := is_valid_cidr (ipnetwork s) s.
+Definition valid_ipv6_cidr (s : str) : ares := is_valid_ipv6_cidr (ipnetwork6 s) s.
